@@ -355,9 +355,14 @@ class FlagInterp(PathInterp):
     """
 
     def __init__(self, fn: FuncInfo, hierarchy: Optional[ExcHierarchy] = None, test_rules=(), stmt_rules=(),
-                 call_rules=(), raise_rules=()):
+                 call_rules=(), raise_rules=(), kill_rules=(), decompose: bool = False, expand=None):
+        """kill_rules: list of (predicate(stmt) -> bool, flags_removed) applied before stmt_rules.
+        decompose: tests are split along not/and/or (short-circuit edges) and test_rules see the atoms.
+        expand: optional f(expr) -> expr applied to every test first (e.g. astutil.expander: named sub-tests)."""
         super().__init__(fn, hierarchy)
         self.test_rules, self.stmt_rules, self.call_rules, self.raise_rules = test_rules, stmt_rules, call_rules, raise_rules
+        self.kill_rules, self.decompose, self.expand = kill_rules, decompose, expand
+        self.unrecognised_atoms: List[ast.AST] = []
         self.events: List[Tuple[str, ast.AST, Any]] = []
         self.raises: List[Tuple[ast.Raise, Any]] = []
 
@@ -374,13 +379,56 @@ class FlagInterp(PathInterp):
         return frozenset(el | flags for el in st)
 
     def on_test(self, test, st):
+        if self.expand is not None:
+            test = self.expand(test)
+        if self.decompose:
+            return self._edges(test, st)
+        return self._atom(test, st)
+
+    def _atom(self, test, st):
         t, f = st, st
+        hit = False
         for pred, ft, ff in self.test_rules:
             if pred(test):
+                hit = True
                 t, f = self.add(t, ft), self.add(f, ff)
+        if not hit:
+            self.unrecognised_atoms.append(test)
         return t, f
 
+    def _edges(self, test, st):
+        if st is None:
+            return None, None
+        if isinstance(test, ast.UnaryOp) and isinstance(test.op, ast.Not):
+            t, f = self._edges(test.operand, st)
+            return f, t
+        if isinstance(test, ast.BoolOp) and isinstance(test.op, ast.And):
+            t, facc = st, None
+            for v in test.values:
+                if t is None:
+                    break
+                tv, fv = self._edges(v, t)
+                facc = self._j(facc, fv)
+                t = tv
+            return t, facc
+        if isinstance(test, ast.BoolOp) and isinstance(test.op, ast.Or):
+            f, tacc = st, None
+            for v in test.values:
+                if f is None:
+                    break
+                tv, fv = self._edges(v, f)
+                tacc = self._j(tacc, tv)
+                f = fv
+            return tacc, f
+        if isinstance(test, ast.Constant) and isinstance(test.value, bool):
+            return (st, None) if test.value else (None, st)
+        return self._atom(test, st)
+
     def on_stmt(self, s, st):
+        for pred, flags in self.kill_rules:
+            if pred(s):
+                fl = frozenset(flags)
+                st = frozenset(el - fl for el in st)
         for pred, flags in self.stmt_rules:
             if pred(s):
                 self.events.append(('stmt', s, st))
